@@ -7,6 +7,12 @@ use std::time::Instant;
 
 pub const VERIF_DIR: &str = "/verif";
 
+/// where evidence/ and replays/ are written (VERIF_OUT_DIR, default /verif): lets a detached copy
+/// of the harness (tools/snap_matrix.sh) run without touching the committed evidence
+pub fn out_dir() -> String {
+    std::env::var("VERIF_OUT_DIR").unwrap_or_else(|_| VERIF_DIR.to_string())
+}
+
 #[derive(Clone, Copy, PartialEq, Eq, Debug)]
 pub enum Tier {
     Quick,
@@ -83,7 +89,7 @@ impl Ctx {
             .and_then(|s| s.parse::<f64>().ok())
             .unwrap_or(tier.pick(120.0, 1500.0));
         // replay artefacts describe the current run only
-        let _ = std::fs::remove_dir_all(format!("{}/replays/{}", VERIF_DIR, prop));
+        let _ = std::fs::remove_dir_all(format!("{}/replays/{}", out_dir(), prop));
         Ctx {
             prop: prop.to_string(),
             tier,
@@ -291,8 +297,8 @@ impl Ctx {
             "wall_s": wall,
             "violations": n_new,
         });
-        let path = format!("{}/evidence/{}.json", VERIF_DIR, self.prop);
-        let _ = std::fs::create_dir_all(format!("{}/evidence", VERIF_DIR));
+        let path = format!("{}/evidence/{}.json", out_dir(), self.prop);
+        let _ = std::fs::create_dir_all(format!("{}/evidence", out_dir()));
         if !merrs.is_empty() {
             // machinery failure: no verdict, no evidence
             let _ = std::fs::remove_file(&path);
@@ -384,7 +390,7 @@ pub fn hash_u64s(data: &[u64]) -> u64 {
 }
 
 fn write_replay(prop: &str, v: &Violation) -> String {
-    let dir = format!("{}/replays/{}", VERIF_DIR, prop);
+    let dir = format!("{}/replays/{}", out_dir(), prop);
     let _ = std::fs::create_dir_all(&dir);
     let body = json!({
         "property": prop,
